@@ -470,8 +470,10 @@ _rens = [
     ("binop.recreate.lhs_error_stops", ["C04"], f"{RL} is Err ==> r == Err::<Instruction, ExecError>({RL}->Err_0)"),
     ("binop.recreate.rhs_error_stops", ["C04"],
      f"{_strict} && {RL} is Ok && {RR} is Err ==> r == Err::<Instruction, ExecError>({RR}->Err_0)"),
+    # compound assignments are not folded; their run-time meaning is binop.exec.compound_* and their recreate is the
+    # structural clause other_operators_rebuilt_in_place below (binop_res does not describe them)
     ("binop.recreate.unobservable", ["C04", "C07", "C08"],
-     "r is Ok ==> (" + sem_binop("r->Ok_0", "*self") + ")"),
+     "r is Ok && (is_plain_binop(self.op) || self.op is And || self.op is Or) ==> (" + sem_binop("r->Ok_0", "*self") + ")"),
 ]
 _rboth = f"{RL} is Ok && {RR} is Ok"
 _notfolded = ["Pow", "Filter", "Map", "FunctionCall", "Partition", "Assign", "AssignAdd", "AssignSubtract",
@@ -775,3 +777,50 @@ for _m, _neg in (("equal", ""), ("not_equal", "!")):
              (f"{_m}.exec.is_{'the_negation_of_' if _neg else ''}value_equality", ["C19"],
               f"r == Variable::Bool({_neg}var_eq(lhs, rhs))"),
          ])
+
+# ---------------------------------------------------------------- Instruction::exec dispatch ----
+# `impl Exec for Instruction` is the match_any! dispatcher every composite instruction goes through.  It is proved
+# against one uninterpreted function pair per kind (verus/kinds.rs): the dispatch axioms of verus/semantics.rs
+# ("executing Instruction::BinOperation(b) is BinOperation::exec(b)") are these clauses, no longer assumptions.
+_KINDS = [("AnonymousFunction", "anonymousfunction"), ("Array", "array"), ("ArrayRepeat", "arrayrepeat"), ("Block", "block"),
+          ("DestructTuple", "destructtuple"), ("Tuple", "tuple"), ("BinOperation", "binoperation"), ("FieldAccess", "fieldaccess"),
+          ("FunctionDeclaration", "functiondeclaration"), ("IfElse", "ifelse"), ("Loop", "loop"), ("Match", "match"),
+          ("Mut", "mut"), ("Reduce", "reduce"), ("Set", "set"), ("SetIfElse", "setifelse"), ("Slicing", "slicing"),
+          ("Struct", "struct"), ("TypeFilter", "typefilter"), ("UnaryOperation", "unaryoperation"), ("TupleAccess", "tupleaccess")]
+_KIND_PROPS = {"BinOperation": ["C04", "C07", "C08"], "IfElse": ["C04", "C07", "C12"], "UnaryOperation": ["C04", "C07", "C08"],
+               "Loop": ["C12"], "Match": ["C07", "C12"], "Block": ["C12"], "SetIfElse": ["C07", "C12"], "Set": ["C07"],
+               "Array": ["C07"], "Tuple": ["C07"], "ArrayRepeat": ["C07", "C04"], "Slicing": ["C09"]}
+_BOXED = {"Block", "Tuple", "AnonymousFunction"}   # held by value in the enum, the others behind an Arc
+_iens = [
+    ("instruction.exec.constant_yields_itself", ["C04", "C07"],
+     f"self is Variable ==> r == {OKV}(self->Variable_0) && {S9} == {S0}"),
+    ("instruction.exec.break_signals_break", ["C12"], f"self is Break ==> r == Err::<Variable, ExecStop>(ExecStop::Break) && {S9} == {S0}"),
+    ("instruction.exec.continue_signals_continue", ["C12"],
+     f"self is Continue ==> r == Err::<Variable, ExecStop>(ExecStop::Continue) && {S9} == {S0}"),
+    ("instruction.exec.name_yields_bound_value", ["C07"],
+     f"self is LocalVariable && st_lookup({S0}, self->LocalVariable_0) is Some ==> "
+     f"r == {OKV}(st_lookup({S0}, self->LocalVariable_0)->Some_0) && {S9} == {S0}"),
+]
+for _v, _l in _KINDS:
+    _d = f"self->{_v}_0" if _v in _BOXED else f"*self->{_v}_0"
+    _iens.append((f"instruction.exec.dispatch_{_l}", _KIND_PROPS.get(_v, ["C07"]),
+                  f"self is {_v} ==> r == kind_{_l}_res({_d}, {S0}) && {S9} == kind_{_l}_st({_d}, {S0})"))
+unit(id="instruction.exec", src=INS, path=[("impl", "Exec for Instruction"), ("fn", "exec")], impl="Instruction",
+     fragments=["kinds"], omit=["instruction_exec_stub"],
+     # the panic closure of the LocalVariable arm (`ok_or_else(|| panic!(..))`) cannot be given a precondition without
+     # editing the body; that a name in an accepted program is always bound is C06's business => no `.safe` obligation
+     no_safe=True, requires=[f"self is LocalVariable ==> st_lookup({S0}, self->LocalVariable_0) is Some"],
+     ensures=_iens)
+
+_rens2 = [
+    ("instruction.recreate.constant_stays_itself", ["C04"],
+     f"self is Variable ==> r == {OKI}(Instruction::Variable(self->Variable_0)) && {RS9} == {RS0}"),
+    ("instruction.recreate.break_continue_unchanged", ["C04", "C12"],
+     f"(self is Break || self is Continue) ==> r == {OKI}(*self) && {RS9} == {RS0}"),
+]
+for _v, _l in _KINDS:
+    _d = f"self->{_v}_0" if _v in _BOXED else f"*self->{_v}_0"
+    _rens2.append((f"instruction.recreate.dispatch_{_l}", ["C04"],
+                   f"self is {_v} ==> r == kind_{_l}_rec({_d}, {RS0}) && {RS9} == kind_{_l}_rec_st({_d}, {RS0})"))
+unit(id="instruction.recreate", src=INS, path=[("impl", "Recreate for Instruction"), ("fn", "recreate")], impl="Instruction",
+     fragments=["kinds"], omit=["instruction_recreate_stub"], no_safe=True, ensures=_rens2)
